@@ -281,6 +281,13 @@ func (e *Engine) runOnce(ops []string, res *report.Result) *report.Failure {
 	budget := 300000
 	zombies := "0"
 	dead := map[string]bool{} // block-level search states from which no explanation was found
+	// populate requests (their `AddOrReplace` is two blocks: stop the old proxy, start the new)
+	isPop := make([]bool, n)
+	for k, c := range calls {
+		f := strings.SplitN(c.op, " ", 3)
+		isPop[k] = len(f) > 1 && f[0] == "POST" && strings.Trim(f[1], "/") == "populate"
+	}
+	atomicPop := false // block-level search with every populate still one block
 	var dfs func(atomic bool, left int) bool
 	dfs = func(atomic bool, left int) bool {
 		if left == 0 {
@@ -322,7 +329,7 @@ func (e *Engine) runOnce(ops []string, res *report.Result) *report.Failure {
 			wasStarted := started[k]
 			started[k] = true
 			m := e.D.Ask(fmt.Sprintf("adv %d", k))
-			for atomic && m == "more" {
+			for (atomic || (atomicPop && isPop[k])) && m == "more" {
 				m = e.D.Ask(fmt.Sprintf("adv %d", k))
 			}
 			ok := false
@@ -354,9 +361,24 @@ func (e *Engine) runOnce(ops []string, res *report.Result) *report.Failure {
 	}
 	okAtomic := dfs(true, n)
 	okBlocks := false
+	okReplace := false
 	if !okAtomic {
 		nodes = 0
+		atomicPop = true
 		okBlocks = dfs(false, n)
+		if !okBlocks && nodes < budget {
+			// … and with `AddOrReplace` as the two steps it is
+			hasPop := false
+			for k := range isPop {
+				hasPop = hasPop || isPop[k]
+			}
+			if hasPop {
+				nodes = 0
+				atomicPop = false
+				dead = map[string]bool{}
+				okReplace = dfs(false, n)
+			}
+		}
 	}
 	res.Count(fmt.Sprintf("search-nodes<=%d", (nodes+99)/100*100))
 	if !okAtomic {
@@ -373,6 +395,9 @@ func (e *Engine) runOnce(ops []string, res *report.Result) *report.Failure {
 		case okBlocks:
 			return fail("oracle", what+" — explained at block level by ProxyUpdate reading its defaults (listen, upstream, enabled) before another update of the same proxy took effect: that update is lost",
 				"some sequential order", impl, "e7:C16:update-stale-defaults")
+		case okReplace:
+			return fail("oracle", what+" — explained at block level by a populate replacing a running proxy: AddOrReplace stops the old proxy and starts the new one in two steps, and a ProxyUpdate (which does not take the collection lock) acted in between",
+				"some sequential order", impl, "e7:C16:replace-stop-start-interleaved")
 		case nodes >= budget:
 			return fail("oracle", what+" (block-level search budget exhausted)", "some sequential order", impl, "e7:C16:not-linearizable:budget:"+shapeOf(calls))
 		default:
